@@ -10,7 +10,10 @@ for prop in sys.argv[1:]:
         t0 = time.time(); n = 0; bad = None; known = False
         for c in chk.search_cases():
             n += 1
+            from vcheck import gen as _gen
+            _gen.use(c)
             v = chk.oracle(c)
+            _gen.use(None)
             if v is not None:
                 if isinstance(getattr(v, "case", None), dict) and v.case.get("input_class"):
                     known = True; continue          # class of a recorded finding
